@@ -195,3 +195,360 @@ Proof.
       * intros _. discriminate.
     + cbn. split; [intros H; contradiction | intros [H _]; discriminate].
 Qed.
+
+(** * 3. Primitive steps on the matcher *)
+
+Lemma push_last_app {A} (x : A) gs g : push_last x (gs ++ [g]) = Some (gs ++ [g ++ [x]]).
+Proof. unfold push_last. rewrite rev_app_distr. cbn. rewrite rev_involutive. reflexivity. Qed.
+
+Lemma push_last_some {A} (x : A) l l' : push_last x l = Some l' ->
+  exists gs g, l = gs ++ [g] /\ l' = gs ++ [g ++ [x]].
+Proof.
+  unfold push_last. destruct (rev l) as [|g r] eqn:E; [discriminate|]. intros H; inversion H; subst.
+  exists (rev r), g. split; [|reflexivity].
+  rewrite <- (rev_involutive l), E. reflexivity.
+Qed.
+
+(** what [add_val_to] followed by [add_index_to] do to the matcher *)
+Lemma add_val_to_spec mt0 i v mt1 : add_val_to mt0 i v = Some mt1 ->
+  exists m gs g, fm_get i (mt_args mt0) = Some m /\ m_raw m = gs ++ [g]
+    /\ mt_args mt1 = fm_update i (fun _ => m <| m_raw := gs ++ [g ++ [v]] |>) (mt_args mt0)
+    /\ mt_pending mt1 = mt_pending mt0 /\ mt_sub mt1 = mt_sub mt0.
+Proof.
+  unfold add_val_to. destruct (fm_get i (mt_args mt0)) as [m|] eqn:E; [|discriminate].
+  unfold append_val. destruct (push_last v (m_raw m)) as [rs|] eqn:Ep; [|discriminate].
+  intros H; inversion H; subst. apply push_last_some in Ep. destruct Ep as [gs [g [E1 E2]]].
+  exists m, gs, g. subst rs. repeat split; assumption.
+Qed.
+
+Lemma add_index_to_spec mt0 i ix mt1 : add_index_to mt0 i ix = Some mt1 ->
+  mt_args mt1 = fm_update i (push_index ix) (mt_args mt0)
+  /\ mt_pending mt1 = mt_pending mt0 /\ mt_sub mt1 = mt_sub mt0.
+Proof.
+  unfold add_index_to. destruct (fm_get i (mt_args mt0)); [|discriminate].
+  intros H; inversion H; subst. repeat split.
+Qed.
+
+(** the entry of [a] seen through [push_arg_values]: source untouched, the values are appended to
+    the last value group in order, every other entry is untouched *)
+Lemma push_arg_values_spec c a : forall raw st st',
+  push_arg_values c a raw st = ROk st' ->
+  (forall j, beq (a_id a) j = false -> fm_get j (mt_args (mt st')) = fm_get j (mt_args (mt st)))
+  /\ map fst (mt_args (mt st')) = map fst (mt_args (mt st))
+  /\ mt_pending (mt st') = mt_pending (mt st) /\ mt_sub (mt st') = mt_sub (mt st)
+  /\ (raw = [] -> st' = st)
+  /\ (forall m gs g, fm_get (a_id a) (mt_args (mt st)) = Some m -> m_raw m = gs ++ [g] ->
+        exists m', fm_get (a_id a) (mt_args (mt st')) = Some m' /\ m_source m' = m_source m
+                   /\ m_raw m' = gs ++ [g ++ raw] /\ m_is_group m' = m_is_group m).
+Proof.
+  induction raw as [|v t IH]; intros st st' H.
+  - cbn in H. inversion H; subst. repeat split; try reflexivity.
+    intros m gs g Hm Hr. exists m. rewrite app_nil_r. repeat split; assumption.
+  - cbn [push_arg_values] in H.
+    destruct (a_vp a) as [vp|]; [|discriminate]. cbn [expect rbind] in H.
+    destruct (vp_parse vp v); [discriminate|].
+    destruct (add_val_to (mt (ps_bump st)) (a_id a) v) as [m1|] eqn:E1; [|discriminate]. cbn [expect rbind] in H.
+    destruct (add_index_to m1 (a_id a) (cur_idx (ps_bump st))) as [m2|] eqn:E2; [|discriminate]. cbn [expect rbind] in H.
+    apply IH in H. destruct H as [Hfr [Hk [Hp [Hs [_ He]]]]].
+    apply add_val_to_spec in E1. destruct E1 as [m0 [gs0 [g0 [G0 [R0 [A1 [P1 S1]]]]]]].
+    apply add_index_to_spec in E2. destruct E2 as [A2 [P2 S2]].
+    cbn in Hfr, Hk, Hp, Hs, He, G0, A1, P1, S1.
+    repeat split.
+    + intros j Hj. rewrite (Hfr j Hj). rewrite A2, fm_get_update, Hj, A1, fm_get_update, Hj. reflexivity.
+    + rewrite Hk, A2, fm_update_keys, A1, fm_update_keys. reflexivity.
+    + rewrite Hp, P2, P1. reflexivity.
+    + rewrite Hs, S2, S1. reflexivity.
+    + discriminate.
+    + intros m gs g Hm Hr. rewrite Hm in G0. inversion G0; subst m0.
+      rewrite Hr in R0. apply app_inj_tail in R0. destruct R0 as [<- <-].
+      destruct (He (push_index (cur_idx (ps_bump st)) (m <| m_raw := gs ++ [g ++ [v]] |>)) gs (g ++ [v])) as [m' [G' [S' [R' I']]]].
+      * rewrite A2, fm_get_update, beq_refl, A1, fm_get_update, beq_refl, Hm. reflexivity.
+      * reflexivity.
+      * exists m'. rewrite <- app_assoc in R'. repeat split; assumption.
+Qed.
+
+(** ** [start_custom_arg] *)
+
+(** with source [DefaultValue] nothing but the argument's own entry is touched: no override is
+    removed, no group is started *)
+Theorem start_custom_arg_default c a m :
+  start_custom_arg c a SDefault m = ROk (start_custom_arg_m m a SDefault).
+Proof. reflexivity. Qed.
+
+(** with source [EnvVariable] no override is removed *)
+Lemma start_custom_arg_env_unfold c a m :
+  start_custom_arg c a SEnv m =
+  fold_left (fun rm g => do m <- rm;
+               let m' := start_custom_group_m m g SEnv in
+               expect 1533 (add_val_to m' g (a_id a)))
+            (groups_for_arg c (a_id a)) (ROk (start_custom_arg_m m a SEnv)).
+Proof. reflexivity. Qed.
+
+Definition group_step (a : arg) (s : src) (rm : res matcher) (g : id) : res matcher :=
+  do m <- rm; let m' := start_custom_group_m m g s in expect 1533 (add_val_to m' g (a_id a)).
+
+Lemma group_fold_err a s gs e st : fold_left (group_step a s) gs (RErr e st) = RErr e st.
+Proof. induction gs; [reflexivity|exact IHgs]. Qed.
+Lemma group_fold_panic a s gs x : fold_left (group_step a s) gs (RPanic x) = RPanic x.
+Proof. induction gs; [reflexivity|exact IHgs]. Qed.
+
+(** one group start: only the entry of [g] changes; an entry whose source is [s] keeps it *)
+Lemma group_step_spec a s m g m' : group_step a s (ROk m) g = ROk m' ->
+  (forall j, beq g j = false -> fm_get j (mt_args m') = fm_get j (mt_args m))
+  /\ mt_pending m' = mt_pending m /\ mt_sub m' = mt_sub m
+  /\ (exists e, fm_get g (mt_args m') = Some e /\
+        opt_src_rank (m_source e) = N.max (opt_src_rank (opt_default None (opt_map m_source (fm_get g (mt_args m))))) (1 + src_rank s)).
+Proof.
+  unfold group_step. cbn [rbind].
+  destruct (add_val_to (start_custom_group_m m g s) g (a_id a)) as [m1|] eqn:E; [|discriminate].
+  cbn [expect]. intros H; inversion H; subst m'.
+  apply add_val_to_spec in E. destruct E as [e [gs [g0 [G [R [A [P S]]]]]]].
+  cbn in G, A, P, S. repeat split.
+  - intros j Hj. rewrite A, fm_get_update, Hj. apply fm_get_entry_or_insert_other. exact Hj.
+  - exact P.
+  - exact S.
+  - exists (e <| m_raw := gs ++ [g0 ++ [a_id a]] |>). split.
+    + rewrite A, fm_get_update, beq_refl, G. reflexivity.
+    + cbn. revert G. unfold fm_entry_or_insert, fm_contains.
+      destruct (fm_get g (mt_args m)) as [e0|] eqn:E0; cbn [is_some].
+      * rewrite fm_get_update, beq_refl, E0. cbn. intros G; inversion G; subst e. cbn.
+        destruct (m_source e0) as [[]|], s; reflexivity.
+      * rewrite fm_get_app, E0. cbn [fm_get]. rewrite beq_refl. intros G; inversion G; subst e.
+        destruct s; reflexivity.
+Qed.
+
+Lemma group_fold_spec a s : forall gs m m', fold_left (group_step a s) gs (ROk m) = ROk m' ->
+  (forall j, mem_id j gs = false -> fm_get j (mt_args m') = fm_get j (mt_args m))
+  /\ mt_pending m' = mt_pending m /\ mt_sub m' = mt_sub m
+  /\ (forall j e, fm_get j (mt_args m) = Some e -> m_source e = Some s ->
+        exists e', fm_get j (mt_args m') = Some e' /\ m_source e' = Some s).
+Proof.
+  induction gs as [|g t IH]; intros m m' H.
+  - cbn in H. inversion H; subst. repeat split; try reflexivity. intros j e G S. exists e. split; assumption.
+  - cbn [fold_left] in H. destruct (group_step a s (ROk m) g) as [m1|e st|x] eqn:E1.
+    + apply IH in H. destruct H as [Hf [Hp [Hs Hsrc]]].
+      pose proof (group_step_spec _ _ _ _ _ E1) as [Gf [Gp [Gs [e1 [Ge Gr]]]]].
+      repeat split.
+      * intros j Hj. cbn [mem_id existsb] in Hj. apply orb_false_iff in Hj. destruct Hj as [Hj1 Hj2].
+        rewrite (Hf j Hj2). apply Gf. rewrite beq_sym. exact Hj1.
+      * congruence.
+      * congruence.
+      * intros j e G S. destruct (beq g j) eqn:Egj.
+        -- apply beq_eq in Egj. subst j. rewrite G in Gr. cbn in Gr. rewrite S in Gr. cbn [opt_src_rank] in Gr.
+           apply (Hsrc g e1 Ge). destruct (m_source e1) as [s1|]; cbn [opt_src_rank] in Gr.
+           ++ f_equal. destruct s1, s; cbn in Gr; try reflexivity; lia.
+           ++ destruct s; cbn in Gr; lia.
+        -- apply (Hsrc j e); [|exact S]. rewrite (Gf j Egj). exact G.
+    + rewrite group_fold_err in H. discriminate.
+    + rewrite group_fold_panic in H. discriminate.
+Qed.
+
+Lemma in_groups_for_arg c i j : mem_id j (groups_for_arg c i) = true -> find_group c j <> None.
+Proof.
+  unfold groups_for_arg, mem_id, find_group. rewrite existsb_exists. intros [g [Hin Hb]].
+  apply in_map_iff in Hin. destruct Hin as [grp [<- Hf]]. apply filter_In in Hf. destruct Hf as [Hin _].
+  apply beq_eq in Hb. subst j.
+  destruct (List.find (fun g0 => beq (g_id g0) (g_id grp)) (c_groups c)) eqn:E; [discriminate|].
+  exfalso. apply (find_none _ _ E) in Hin. rewrite beq_refl in Hin. discriminate.
+Qed.
+
+(** [start_custom_arg] for a source other than the command line, on an argument that has no
+    entry yet: a fresh entry labelled [s] is appended; apart from it only entries of groups
+    containing the argument can change (and only for an explicit source) *)
+Lemma start_custom_arg_noncmd c a s m m2 :
+  s <> SCmdLine -> fm_get (a_id a) (mt_args m) = None ->
+  start_custom_arg c a s m = ROk m2 ->
+  (forall j, beq (a_id a) j = false -> (src_explicit s = true -> find_group c j = None) ->
+             fm_get j (mt_args m2) = fm_get j (mt_args m))
+  /\ mt_pending m2 = mt_pending m /\ mt_sub m2 = mt_sub m
+  /\ (exists e, fm_get (a_id a) (mt_args m2) = Some e /\ m_source e = Some s)
+  /\ (find_group c (a_id a) = None \/ src_explicit s = false ->
+      fm_get (a_id a) (mt_args m2) = Some (new_val_group (set_source s (marg_new (a_ignore_case a) false))))
+  /\ (src_explicit s = false -> mt_args m2 = mt_args m ++ [(a_id a, new_val_group (set_source s (marg_new (a_ignore_case a) false)))]).
+Proof.
+  intros Hs Habs H. unfold start_custom_arg in H.
+  assert (Hm1 : (match s with SCmdLine => remove_overrides c a m | _ => m end) = m) by (destruct s; congruence).
+  rewrite Hm1 in H. clear Hm1.
+  set (e0 := new_val_group (set_source s (marg_new (a_ignore_case a) false))) in *.
+  assert (A0 : mt_args (start_custom_arg_m m a s) = mt_args m ++ [(a_id a, e0)]).
+  { unfold start_custom_arg_m. cbn. apply fm_entry_or_insert_absent. exact Habs. }
+  assert (G0 : fm_get (a_id a) (mt_args (start_custom_arg_m m a s)) = Some e0).
+  { rewrite A0, fm_get_app, Habs. cbn. rewrite beq_refl. reflexivity. }
+  assert (F0 : forall j, beq (a_id a) j = false -> fm_get j (mt_args (start_custom_arg_m m a s)) = fm_get j (mt_args m)).
+  { intros j Hj. rewrite A0, fm_get_app. destruct (fm_get j (mt_args m)); [reflexivity|]. cbn. rewrite Hj. reflexivity. }
+  destruct (src_explicit s) eqn:Ex.
+  - change (fold_left (group_step a s) (groups_for_arg c (a_id a)) (ROk (start_custom_arg_m m a s)) = ROk m2) in H.
+    apply group_fold_spec in H. destruct H as [Hf [Hp [Hsub Hsrc]]].
+    repeat split.
+    + intros j Hj Hg. rewrite Hf; [apply F0; exact Hj|].
+      destruct (mem_id j (groups_for_arg c (a_id a))) eqn:Em; [|reflexivity].
+      apply in_groups_for_arg in Em. rewrite (Hg eq_refl) in Em. contradiction.
+    + rewrite Hp. reflexivity.
+    + rewrite Hsub. reflexivity.
+    + apply (Hsrc (a_id a) e0 G0). reflexivity.
+    + intros [Hg|Hg]; [|discriminate]. rewrite Hf; [exact G0|].
+      destruct (mem_id (a_id a) (groups_for_arg c (a_id a))) eqn:Em; [|reflexivity].
+      apply in_groups_for_arg in Em. rewrite Hg in Em. contradiction.
+    + discriminate.
+  - inversion H; subst m2. repeat split.
+    + intros j Hj _. apply F0. exact Hj.
+    + exists e0. split; [exact G0|reflexivity].
+    + intros _. exact G0.
+    + intros _. exact A0.
+Qed.
+
+(** ** shape of the entry list through [push_arg_values] *)
+Lemma fm_update_id {V} k (l : list (id * V)) : fm_update k (fun x => x) l = l.
+Proof.
+  induction l as [|[k0 v] t IH]; [reflexivity|]. cbn [fm_update].
+  destruct (beq k0 k); [reflexivity | rewrite IH; reflexivity].
+Qed.
+Lemma fm_update_compose {V} k (f g : V -> V) (l : list (id * V)) :
+  fm_update k f (fm_update k g l) = fm_update k (fun x => f (g x)) l.
+Proof.
+  induction l as [|[k0 v] t IH]; [reflexivity|]. cbn [fm_update].
+  destruct (beq k0 k) eqn:E; cbn [fm_update]; rewrite E; [reflexivity | rewrite IH; reflexivity].
+Qed.
+Lemma fm_update_app_absent {V} k (f : V -> V) (l : list (id * V)) e :
+  fm_get k l = None -> fm_update k f (l ++ [(k, e)]) = l ++ [(k, f e)].
+Proof.
+  induction l as [|[k0 v] t IH]; cbn [fm_get app fm_update].
+  - rewrite beq_refl. reflexivity.
+  - destruct (beq k0 k); [discriminate|]. intros H. rewrite (IH H). reflexivity.
+Qed.
+
+Lemma push_arg_values_shape c a : forall raw st st',
+  push_arg_values c a raw st = ROk st' ->
+  exists f, mt_args (mt st') = fm_update (a_id a) f (mt_args (mt st)).
+Proof.
+  induction raw as [|v t IH]; intros st st' H.
+  - cbn in H. inversion H; subst. exists (fun x => x). rewrite fm_update_id. reflexivity.
+  - cbn [push_arg_values] in H.
+    destruct (a_vp a) as [vp|]; [|discriminate]. cbn [expect rbind] in H.
+    destruct (vp_parse vp v); [discriminate|].
+    destruct (add_val_to (mt (ps_bump st)) (a_id a) v) as [m1|] eqn:E1; [|discriminate]. cbn [expect rbind] in H.
+    destruct (add_index_to m1 (a_id a) (cur_idx (ps_bump st))) as [m2|] eqn:E2; [|discriminate]. cbn [expect rbind] in H.
+    apply IH in H. destruct H as [f Hf].
+    apply add_val_to_spec in E1. destruct E1 as [m0 [gs0 [g0 [G0 [R0 [A1 [P1 S1]]]]]]].
+    apply add_index_to_spec in E2. destruct E2 as [A2 [P2 S2]].
+    cbn in Hf, A1. rewrite A2, A1, !fm_update_compose in Hf.
+    eexists. exact Hf.
+Qed.
+
+(** ** the delimiter block never yields an empty list from a non-empty one *)
+Lemma split_fuel_nonempty : forall fuel h n l, split_fuel fuel h n = Some l -> l <> [].
+Proof.
+  destruct fuel as [|f]; intros h n l; cbn [split_fuel]; [discriminate|].
+  destruct (split_once h n) as [[a b]|].
+  - destruct (split_fuel f b n); [|discriminate]. intros H; inversion H; discriminate.
+  - intros H; inversion H; discriminate.
+Qed.
+
+Lemma delimit_go_nonempty ddt db ti : forall l i vs,
+  l <> [] -> delimit_go ddt db ti i l = Some vs -> vs <> [].
+Proof.
+  intros [|v t] i vs Hl; [contradiction|]. cbn [delimit_go].
+  set (here := if negb (contains v db) || (ddt && match ti with Some k => k =? i | None => false end)
+               then Some [v] else match split v db with SplitOk parts => Some parts | _ => None end).
+  assert (Hh : forall a, here = Some a -> a <> []).
+  { subst here. intros a. destruct (negb (contains v db) || _).
+    - intros H; inversion H; discriminate.
+    - unfold split. destruct db; [discriminate|].
+      destruct (split_fuel _ _ _) eqn:E; [|discriminate]. intros H; inversion H; subst.
+      eapply split_fuel_nonempty; exact E. }
+  destruct here as [a|]; [|discriminate]. destruct (delimit_go ddt db ti (i + 1) t) as [b|]; [|discriminate].
+  intros H; inversion H; subst. specialize (Hh a eq_refl). destruct a; [contradiction|discriminate].
+Qed.
+
+Lemma delimit_nonempty c a raw ti vs : raw <> [] -> delimit c a raw ti = Some vs -> vs <> [].
+Proof.
+  intros Hr. unfold delimit. destruct (a_delim a) as [d|].
+  - destruct (is_set s_dont_delimit_trailing c && _).
+    + intros H; inversion H; subst; exact Hr.
+    + apply delimit_go_nonempty. exact Hr.
+  - intros H; inversion H; subst; exact Hr.
+Qed.
+
+Lemma push_arg_values_source c a : forall raw st st' m,
+  push_arg_values c a raw st = ROk st' -> fm_get (a_id a) (mt_args (mt st)) = Some m ->
+  exists m', fm_get (a_id a) (mt_args (mt st')) = Some m' /\ m_source m' = m_source m.
+Proof.
+  induction raw as [|v t IH]; intros st st' m H Hm.
+  - cbn in H. inversion H; subst. exists m. split; [exact Hm|reflexivity].
+  - cbn [push_arg_values] in H.
+    destruct (a_vp a) as [vp|]; [|discriminate]. cbn [expect rbind] in H.
+    destruct (vp_parse vp v); [discriminate|].
+    destruct (add_val_to (mt (ps_bump st)) (a_id a) v) as [m1|] eqn:E1; [|discriminate]. cbn [expect rbind] in H.
+    destruct (add_index_to m1 (a_id a) (cur_idx (ps_bump st))) as [m2|] eqn:E2; [|discriminate]. cbn [expect rbind] in H.
+    apply add_val_to_spec in E1. destruct E1 as [m0 [gs0 [g0 [G0 [R0 [A1 [P1 S1]]]]]]].
+    apply add_index_to_spec in E2. destruct E2 as [A2 [P2 S2]].
+    cbn in G0, A1. rewrite Hm in G0. inversion G0; subst m0.
+    apply (IH _ _ (push_index (cur_idx (ps_bump st)) (m <| m_raw := gs0 ++ [g0 ++ [v]] |>))) in H.
+    + destruct H as [m' [G' S']]. exists m'. split; [exact G'|]. rewrite S'. reflexivity.
+    + cbn. rewrite A2, fm_get_update, beq_refl, A1, fm_get_update, beq_refl, Hm. reflexivity.
+Qed.
+
+(** ** one [react] for a source other than the command line, on an argument without an entry *)
+
+(** what such a [react] leaves behind, relative to the matcher [m1] it started from *)
+Definition stored (c : cmd) (a : arg) (s : src) (vs : list bytes) (m1 m' : matcher) : Prop :=
+  (exists e, fm_get (a_id a) (mt_args m') = Some e /\ m_source e = Some s)
+  /\ (find_group c (a_id a) = None \/ src_explicit s = false ->
+       exists e, fm_get (a_id a) (mt_args m') = Some e /\ m_source e = Some s /\ m_raw e = [vs] /\ m_is_group e = false)
+  /\ (forall j, beq (a_id a) j = false -> (src_explicit s = true -> find_group c j = None) ->
+        fm_get j (mt_args m') = fm_get j (mt_args m1))
+  /\ mt_pending m' = mt_pending m1 /\ mt_sub m' = mt_sub m1
+  /\ (src_explicit s = false -> exists e, mt_args m' = mt_args m1 ++ [(a_id a, e)]).
+
+Lemma store_noncmd c a s vs (st0 : ps) m1 st' pr :
+  s <> SCmdLine -> fm_get (a_id a) (mt_args m1) = None ->
+  (do m2 <- start_custom_arg c a s m1;
+   do st' <- push_arg_values c a vs (st0 <| mt := m2 |>);
+   ROk (st', PRValuesDone)) = ROk (st', pr) ->
+  stored c a s vs m1 (mt st').
+Proof.
+  intros Hs Habs H.
+  destruct (start_custom_arg c a s m1) as [m2| |] eqn:E1; [|discriminate|discriminate]. cbn [rbind] in H.
+  destruct (push_arg_values c a vs (st0 <| mt := m2 |>)) as [st2| |] eqn:E2; [|discriminate|discriminate].
+  cbn [rbind] in H. inversion H; subst st2 pr. clear H.
+  apply (start_custom_arg_noncmd c a s m1 m2 Hs Habs) in E1.
+  destruct E1 as [Hf [Hp [Hsub [[e [Ge Se]] [Hfresh Happ]]]]].
+  pose proof (push_arg_values_spec _ _ _ _ _ E2) as [Pf [Pk [Pp [Psub [_ Pe]]]]].
+  cbn in Pf, Pk, Pp, Psub, Pe.
+  unfold stored. repeat split.
+  - destruct (push_arg_values_source _ _ _ _ _ e E2 Ge) as [e' [G' S']]. exists e'. split; [exact G'|congruence].
+  - intros Hc. specialize (Hfresh Hc).
+    destruct (Pe _ [] [] Hfresh eq_refl) as [e' [G' [S' [R' I']]]].
+    exists e'. split; [exact G'|]. split; [rewrite S'; reflexivity|]. split; [exact R'|exact I'].
+  - intros j Hj Hg. rewrite (Pf j Hj). apply Hf; assumption.
+  - congruence.
+  - congruence.
+  - intros Hx. specialize (Happ Hx).
+    destruct (push_arg_values_shape _ _ _ _ _ E2) as [f Hshape]. cbn in Hshape.
+    rewrite Hshape, Happ. eexists. apply fm_update_app_absent. exact Habs.
+Qed.
+
+Lemma mt_remove_absent mt0 i : fm_get i (mt_args mt0) = None ->
+  mt_remove mt0 i = (mt0 <| mt_args := mt_args mt0 |>, false).
+Proof. intros H. unfold mt_remove. rewrite (fm_remove_absent _ _ H). reflexivity. Qed.
+
+Theorem react_core_noncmd c idn s a raw ti st st' pr :
+  s <> SCmdLine -> raw <> [] -> fm_get (a_id a) (mt_args (mt st)) = None ->
+  react_core c idn s a raw ti st = ROk (st', pr) ->
+  exists vs, delimit c a raw ti = Some vs /\ vs <> [] /\ stored c a s vs (mt st) (mt st').
+Proof.
+  intros Hs Hraw Habs H. rewrite react_core_unfold in H.
+  assert (Hc : is_cmdline s = false) by (destruct s; [reflexivity|reflexivity|congruence]).
+  rewrite Hc in H. cbn [rbind] in H.
+  assert (Hv : react_vals a raw ti = (raw, ti)) by (destruct raw; [contradiction|reflexivity]).
+  rewrite Hv in H. cbn [fst snd] in H. unfold react_tail in H.
+  destruct (delimit c a raw ti) as [vs|] eqn:Ed; [|discriminate]. cbn [expect rbind] in H.
+  pose proof (delimit_nonempty _ _ _ _ _ Hraw Ed) as Hvs.
+  exists vs. split; [reflexivity|]. split; [exact Hvs|].
+  rewrite Hc in H. rewrite !andb_false_r in H; cbn [andb] in H.
+  rewrite (mt_remove_absent _ _ Habs) in H. cbn [andb] in H.
+  assert (Hfill : forall d, match vs with [] => d | _ => vs end = vs) by (intros d; destruct vs; [contradiction|reflexivity]).
+  rewrite !Hfill in H.
+  destruct (a_get_action a); try discriminate;
+    (eapply store_noncmd in H; [|exact Hs|exact Habs]; exact H).
+Qed.
